@@ -6,8 +6,13 @@
   Coordinates range over an arbitrary linear order (bound laws), an arbitrary
   type with lawful `==` (equality) or an arbitrary ordered commutative ring
   (orientation): exact arithmetic; NaN is outside these theorems.
+
+  The clause about MEMORY ("a clone shares no memory with the original: mutating either
+  leaves the other unchanged") is stated over the heap model `Orb.Heap` (slice headers into a
+  store of backing arrays) in the second half of this file, for an arbitrary coordinate type.
 -/
 import OrbProofs.C06Lemmas
+import OrbProofs.C06HeapLemmas
 
 namespace Orb.Core
 
@@ -105,3 +110,88 @@ example : (⟨⟨0, 0⟩, ⟨2, 2⟩⟩ : Bound Int).isEmpty = false ∧ (⟨⟨
     orientation ([⟨0, 0⟩, ⟨1, 0⟩, ⟨1, 1⟩, ⟨0, 0⟩] : List (Pt Int)) = 1 := by decide
 
 end Orb.Core
+
+/-! ## Heap level: a clone shares no memory with the original
+
+`σ` is the store of backing arrays before the call, `g` the headers of the original,
+`(clone σ g).1` the store after the call and `(clone σ g).2` the headers of the clone.
+`WF σ g` (no dangling header) holds for every Go value. -/
+namespace Orb.Heap
+open Orb
+
+variable {α : Type}
+
+/-- The clone denotes the value the original had … -/
+theorem clone_denote (σ : Store α) (g : HGeom α) (h : WF σ g) :
+    denote (clone σ g).1 (clone σ g).2 = denote σ g := clone_denote' σ g h
+
+/-- … so `orb.Equal` answers `true` on (original, clone) … -/
+theorem clone_equal_denote [BEq α] [LawfulBEq α] (σ : Store α) (g : HGeom α) (h : WF σ g) :
+    Core.equal (denote σ g) (denote (clone σ g).1 (clone σ g).2) = true := by
+  rw [clone_denote σ g h]; exact (Core.equal_iff _ _).2 rfl
+
+/-- … and the call does not disturb the original (it only appends arrays). -/
+theorem clone_preserves_original (σ : Store α) (g : HGeom α) (h : WF σ g) :
+    denote (clone σ g).1 g = denote σ g := clone_preserves_original' σ g h
+
+/-- The clone's headers are exactly the next unused array ids, one per point slice of the original,
+    in traversal order … -/
+theorem clone_footprint_eq (σ : Store α) (g : HGeom α) :
+    footprint (clone σ g).2 = List.range' σ.length (footprint g).length := clone_footprint σ g
+
+/-- … hence: every array of the clone is fresh (allocated by the call), no two point slices of the
+    clone share an array — whatever sharing the original has internally — and no array of the clone
+    is an array of the original. -/
+theorem clone_fresh (σ : Store α) (g : HGeom α) :
+    (∀ a ∈ footprint (clone σ g).2, σ.length ≤ a) ∧
+    (footprint (clone σ g).2).Nodup ∧
+    (WF σ g → ∀ a ∈ footprint (clone σ g).2, a ∉ footprint g) := clone_fresh' σ g
+
+/-- The clone is well-formed in the new store. -/
+theorem clone_WF (σ : Store α) (g : HGeom α) : WF (clone σ g).1 (clone σ g).2 := clone_wf σ g
+
+/-- Frame rule: a write to an array outside the footprint of a value is invisible in it. -/
+theorem write_frame (σ : Store α) (g : HGeom α) (a i : Nat) (v : Pt α) (h : a ∉ footprint g) :
+    denote (write σ a i v) g = denote σ g := write_frame' σ g a i v h
+
+/-- What a write does: array `a` gets `v` at index `i`, every other array is untouched. -/
+theorem read_write (σ : Store α) (a b i : Nat) (v : Pt α) :
+    read (write σ a i v) b = if b = a then (read σ a).set i v else read σ b := by
+  by_cases h : b = a
+  · subst h; simp [read_write_same]
+  · simp [h, read_write_ne σ a b i v h]
+
+/-- Mutating either leaves the other unchanged: overwriting ANY vertex (any index `i`, any value `v`)
+    of ANY array of the clone leaves the value of the original as it was before the call, and
+    overwriting any vertex of any array of the original leaves the value of the clone equal to
+    the value the original had when it was cloned. -/
+theorem clone_independent (σ : Store α) (g : HGeom α) (h : WF σ g) :
+    (∀ a ∈ footprint (clone σ g).2, ∀ (i : Nat) (v : Pt α),
+        denote (write (clone σ g).1 a i v) g = denote σ g) ∧
+    (∀ a ∈ footprint g, ∀ (i : Nat) (v : Pt α),
+        denote (write (clone σ g).1 a i v) (clone σ g).2 = denote σ g) := clone_independent' σ g h
+
+/-- Non-vacuity on a concrete nested value whose ORIGINAL shares memory internally (array 0 is both
+    rings of the polygon and two rings of the nested multi-polygon): the value is well-formed, the
+    clone lives in arrays 2‥7 (all distinct), a write through the clone is visible in the clone and
+    a write through the original is visible in the original (in every member sharing the array),
+    so the independence statement is not about writes that do nothing. -/
+example :
+    let σ : Store Int := [[⟨0, 0⟩, ⟨1, 0⟩, ⟨1, 1⟩, ⟨0, 0⟩], [⟨5, 5⟩]]
+    let g : HGeom Int := .collection [.polygon [0, 0],
+      .collection [.lineString 1, .multiPolygon [[0], [1, 0]]], .point ⟨9, 9⟩]
+    (∀ a ∈ footprint g, a < σ.length) ∧
+    footprint g = [0, 0, 1, 0, 1, 0] ∧
+    footprint (clone σ g).2 = [2, 3, 4, 5, 6, 7] ∧
+    (clone σ g).1.length = 8 ∧
+    read (clone σ g).1 7 = [⟨0, 0⟩, ⟨1, 0⟩, ⟨1, 1⟩, ⟨0, 0⟩] ∧
+    read (write (clone σ g).1 7 1 ⟨3, 3⟩) 7 = [⟨0, 0⟩, ⟨3, 3⟩, ⟨1, 1⟩, ⟨0, 0⟩] ∧
+    read (write (clone σ g).1 0 1 ⟨3, 3⟩) 0 = [⟨0, 0⟩, ⟨3, 3⟩, ⟨1, 1⟩, ⟨0, 0⟩] ∧
+    read (write (clone σ g).1 0 1 ⟨3, 3⟩) 7 = [⟨0, 0⟩, ⟨1, 0⟩, ⟨1, 1⟩, ⟨0, 0⟩] := by decide
+
+example :
+    denote (write [[⟨0, 0⟩, ⟨1, 0⟩], [⟨5, 5⟩]] 0 1 ⟨3, 3⟩)
+      (.collection [.polygon [0, 0], .lineString 1] : HGeom Int) =
+    .collection [.polygon [[⟨0, 0⟩, ⟨3, 3⟩], [⟨0, 0⟩, ⟨3, 3⟩]], .lineString [⟨5, 5⟩]] := rfl
+
+end Orb.Heap
